@@ -123,3 +123,93 @@ func h07a() {
 }
 
 func H07a_q() { h07a() }
+
+// ---- enum names (the generated String methods go through the protobuf runtime) ----
+
+//verif:replace (connectrpc.com/conformance/internal/gen/proto/go/connectrpc/conformance/v1.Protocol).String vModelProtocolString
+func vModelProtocolString(x conformancev1.Protocol) string {
+	switch x {
+	case 1:
+		return "PROTOCOL_CONNECT"
+	case 2:
+		return "PROTOCOL_GRPC"
+	case 3:
+		return "PROTOCOL_GRPC_WEB"
+	}
+	return "PROTOCOL_UNSPECIFIED"
+}
+
+//verif:replace (connectrpc.com/conformance/internal/gen/proto/go/connectrpc/conformance/v1.Codec).String vModelCodecString
+func vModelCodecString(x conformancev1.Codec) string {
+	switch x {
+	case 1:
+		return "CODEC_PROTO"
+	case 2:
+		return "CODEC_JSON"
+	}
+	return "CODEC_TEXT"
+}
+
+//verif:replace (connectrpc.com/conformance/internal/gen/proto/go/connectrpc/conformance/v1.Compression).String vModelCompressionString
+func vModelCompressionString(x conformancev1.Compression) string {
+	switch x {
+	case 1:
+		return "COMPRESSION_IDENTITY"
+	case 2:
+		return "COMPRESSION_GZIP"
+	}
+	return "COMPRESSION_OTHER"
+}
+
+// H07n: full names spell out exactly the axes the suite leaves open: two different config cases that the same
+// suite admits get different name prefixes (so expanded names are unique), and equal cases get equal prefixes.
+func H07n_q() {
+	s := &conformancev1.TestSuite{Name: "S"}
+	nv := vInt("s.nver", 0, 2)
+	for i := 0; i < nv; i++ {
+		s.RelevantHttpVersions = append(s.RelevantHttpVersions, conformancev1.HTTPVersion(vIntAt("s.ver", i, 2, 1, 3)))
+	}
+	np := vInt("s.nproto", 0, 2)
+	for i := 0; i < np; i++ {
+		s.RelevantProtocols = append(s.RelevantProtocols, conformancev1.Protocol(vIntAt("s.proto", i, 2, 1, 3)))
+	}
+	nc := vInt("s.ncodec", 0, 2)
+	for i := 0; i < nc; i++ {
+		s.RelevantCodecs = append(s.RelevantCodecs, conformancev1.Codec(vIntAt("s.codec", i, 2, 1, 2)))
+	}
+	nz := vInt("s.ncomp", 0, 2)
+	for i := 0; i < nz; i++ {
+		s.RelevantCompressions = append(s.RelevantCompressions, conformancev1.Compression(vIntAt("s.comp", i, 2, 1, 2)))
+	}
+	s.ReliesOnTls = vBool("s.tls")
+	mk := func(tag string) configCase {
+		return configCase{
+			Version:     conformancev1.HTTPVersion(vInt(tag+".ver", 1, 3)),
+			Protocol:    conformancev1.Protocol(vInt(tag+".proto", 1, 3)),
+			Codec:       conformancev1.Codec(vInt(tag+".codec", 1, 2)),
+			Compression: conformancev1.Compression(vInt(tag+".comp", 1, 2)),
+			UseTLS:      vBool(tag + ".tls"),
+		}
+	}
+	c0, c1 := mk("c0"), mk("c1")
+	// both cases are admitted by the suite (a single relevant entry pins that axis; TLS reliance pins TLS)
+	pinned := func(c configCase) bool {
+		return (len(s.RelevantHttpVersions) != 1 || s.RelevantHttpVersions[0] == c.Version) &&
+			(len(s.RelevantProtocols) != 1 || s.RelevantProtocols[0] == c.Protocol) &&
+			(len(s.RelevantCodecs) != 1 || s.RelevantCodecs[0] == c.Codec) &&
+			(len(s.RelevantCompressions) != 1 || s.RelevantCompressions[0] == c.Compression) &&
+			(!s.ReliesOnTls || c.UseTLS)
+	}
+	vAssume(pinned(c0) && pinned(c1))
+	p0 := generateTestCasePrefix(s, c0)
+	p1 := generateTestCasePrefix(s, c1)
+	same := len(p0) == len(p1)
+	if same {
+		for i := range p0 {
+			if p0[i] != p1[i] {
+				same = false
+			}
+		}
+	}
+	vAssert(same == (c0 == c1), "two admitted config cases get the same name prefix exactly when they are the same case")
+}
